@@ -18,7 +18,7 @@ RULE = ("(i) frame monitor around every call: __setattr__/__delattr__ tap on the
         "model object between entry and exit), model.__dict__ snapshots (openskill.* module globals are snapshotted too, informational); (ii)/(iii) "
         "history-free oracle: sequences of 5-50 mixed rate/predict calls with random per-call tau/limit_sigma on one "
         "long-lived model, every call re-run on a fresh identically constructed model with fresh rating objects and "
-        "compared bit for bit, with outcome lists REUSED as the same list object between calls of a sequence (the oracle gets "
+        "compared bit for bit, with every returned container edited in place after its numbers were read, outcome lists REUSED as the same list object between calls of a sequence (the oracle gets "
         "a fresh list of the original values), ids overwritten (sorted/reversed/equal strings), names permuted; plus feedback "
         "sequences in which the SAME rating objects are rated again and again (10-120 steps) and every call is compared with "
         "the history-free result for the values the objects held before it; (iv) the same seeded "
@@ -167,9 +167,22 @@ def run_op(model, op, idmode=None, tag="", watch_globals=False, consts=None):
     if o.exc is None:
         try:
             nums = _numbers(op, o.res)
+            _scribble(o.res)
         except Exception as e:  # noqa: BLE001
             o.exc = e
     return o, nums
+
+
+def _scribble(res):
+    """what a caller may do with a returned container: edit it in place (the rating objects themselves are left alone).
+    A call that hands out a shared list (a module constant, a cached result) is exposed by the next call that returns it."""
+    if isinstance(res, list):
+        for i, x in enumerate(res):
+            if isinstance(x, list):
+                x.append("scribbled")
+            elif isinstance(x, (int, float, tuple)):
+                res[i] = -12345.678
+        res.append("scribbled")
 
 
 def oracle(model_name, cfg, op, Ms=None):
